@@ -401,8 +401,9 @@ func checkAlgoSwitch(c *Ctx, fn *ssa.Function) {
 	c.Floor("R2.algo", rows, 60, "cases of the algorithm/key switch")
 	// the hasher is written with the signed bytes: Write(p1) on the hash
 	okWrite := false
-	for _, call := range callsIn(fn) {
-		if call.Common().IsInvoke() && call.Common().Method.Name() == "Write" && w.Expr(call.Common().Args[0]) == "p1" {
+	w.Focus(fn)
+	for _, call := range w.callsInDeep(fn) {
+		if call.Common().IsInvoke() && call.Common().Method.Name() == "Write" && w.ExprIn(fn, call.Common().Args[0]) == "p1" {
 			okWrite = true
 		}
 	}
